@@ -99,7 +99,7 @@ let show_event = function
 
 (* a recorded Hibernate / Boot call of the implementation *)
 type call = { kind : string; cstep : int; inst : int; before : int; after : int;
-              file : (int * int) option; err : string option }
+              file : (int * int) option; err : string option; tracked : int (* -1: not recorded *) }
 
 let call_of_sx (s : sx) : call =
   let a = args s in
@@ -113,7 +113,10 @@ let call_of_sx (s : sx) : call =
     | _ -> None in
   let r = List.nth a 5 in
   let err = match tag r with "err" -> Some (atom (List.hd (args r))) | _ -> None in
-  { kind = tag s; cstep = i 0; inst = i 1; before = i 2; after = i 3; file; err }
+  let tracked = match List.filter (fun x -> tag x = "files") a with
+    | f :: _ -> int_of_sx (List.hd (args f))
+    | [] -> -1 in
+  { kind = tag s; cstep = i 0; inst = i 1; before = i 2; after = i 3; file; err; tracked }
 
 (* the implementation's call in the vocabulary of the model's events *)
 let show_call (b : int) (c : call) : string =
@@ -158,9 +161,56 @@ let () =
     if max_file >= 1 lsl 20 then count "cases_with_temp_file_over_1MiB";
     let multi_boot = List.exists (function ABoot (_, _ :: _) -> true | _ -> false) in
     count (if wrapped then "runs_with_recording_wrapper" else "runs_with_bare_item");
+    (match field_opt "baseretry" obs with
+     | Some f when int_of_sx (List.hd (args f)) > 0 -> count "baseline_rerun_to_match_the_base_plan"
+     | _ -> ());
+    (* round 3: a branch that tracks no file (every text file deleted or turned binary) while its arena is not empty is
+       hibernated and booted again (wrapper only: the calls are recorded) *)
+    List.iter (fun e -> match tag e with
+        | "hib" | "boot" ->
+            let cl = call_of_sx e in
+            if cl.tracked = 0 && cl.err = None then begin
+              if cl.kind = "hib" && cl.before > 0 && cl.after = 0 then
+                count (if cl.file <> None then "hibernate_to_disk_of_branch_tracking_no_file" else "hibernate_in_memory_of_branch_tracking_no_file");
+              if cl.kind = "boot" && cl.before = 0 && cl.after > 0 then count "boot_of_branch_tracking_no_file"
+            end
+        | "vfile" ->
+            (* the victim of an every-length truncation: (vfile step id size arena gaps offset-of-the-last-payload) *)
+            (match List.map int_of_sx (args e), List.filter (fun x -> tag x = "len") (args (field "fault" c)) with
+             | [_; _; size; _; gaps; last7], l :: _ ->
+                 let len = int_of_sx (List.hd (args l)) in
+                 if gaps > 0 then count "truncall_victim_has_free_nodes";
+                 if len = last7 && last7 < size then count "truncall_cut_exactly_at_start_of_last_payload";
+                 if len = size - 1 then count "truncall_cut_last_byte";
+                 if len = 0 then count "truncall_victim_files"
+             | _ -> ())
+        | _ -> ()) events;
 
     (* ------------------------------------------------------------------ property oracles *)
     let show (k, d) = k ^ ":" ^ d in
+    (* kind rerun: the same BurndownAnalysis instance went through a prior Initialize + Run.  [exposed]: that prior run used
+       on-disk hibernation and FAILED, so the instance may still hold the name of a temp file (finding: Initialize does not
+       reset it); a failure of such a case carries the narrow tag below and its fine correspondence is skipped (the model
+       starts every run from a fresh item). *)
+    let prior = field_opt "prior" c in
+    let prior_res = match field_opt "priorres" obs with
+      | Some f -> (match args f with o :: n :: _ -> Some ((tag o, atom (List.hd (args o))), int_of_sx n) | _ -> None)
+      | None -> None in
+    let exposed = match prior, prior_res with
+      | Some p, Some ((k, _), _) -> k <> "ok" && int_of_sx (List.hd (args (field "disk" p))) <> 0
+      | _ -> false in
+    (match prior, prior_res with
+     | Some p, Some ((k, _), left) ->
+         count ("rerun_prior_" ^ k);
+         if left > 0 then count "rerun_prior_left_temp_files";
+         if field_opt "hist" p <> None then count "rerun_prior_on_another_history";
+         if exposed then count "rerun_after_failed_disk_run"
+     | _ -> ());
+    if exposed && res <> base && res <> ("panic", "crash") && res <> ("panic", "hang") then
+      propfail id (Printf.sprintf "reuse-after-failed-disk-run: a BurndownAnalysis instance whose previous run failed while branches slept on disk (%s) is initialized and run again (distance %d, threshold %d, disk %d, no fault) and gives %s; a fresh instance without hibernation gives %s (Initialize does not reset hibernatedFileName: Boot reads the stale temp file)"
+                     (match prior_res with Some (r, n) -> Printf.sprintf "outcome %s, %d temp file(s) left" (show r) n | None -> "?")
+                     (geti "dist") (geti "thr") (geti "disk") (show res) (show base))
+    else
     if res = ("panic", "hang") then
       propfail id (Printf.sprintf "the run with hibernation (distance %d, threshold %d, disk %d, fault %s) does not return within the time limit of the harness (the largest run of the family takes well under a minute)"
                      (geti "dist") (geti "thr") (geti "disk") fault)
@@ -244,7 +294,8 @@ let () =
 
     (* ------------------------------------------------------------------ fine correspondence *)
     if wrapped && lc && max_file > fine_limit then count "fine_correspondence_skipped_large_file";
-    if wrapped && lc && max_file <= fine_limit && res <> ("panic", "crash") && res <> ("panic", "hang") then begin
+    if wrapped && lc && exposed then count "fine_correspondence_skipped_rerun_after_failed_disk_run";
+    if wrapped && lc && not exposed && max_file <= fine_limit && res <> ("panic", "crash") && res <> ("panic", "hang") then begin
       let calls = List.filter_map (fun e -> match tag e with "hib" | "boot" -> Some (call_of_sx e) | _ -> None) events in
       (* oracle: one entry per call that touches the disk, in call order *)
       let entries = List.filter_map (fun cl ->
